@@ -18,9 +18,9 @@ def instrument(i, nfl=2):
     return dict(id='INST%d' % (i + 1), fsc='FSC' + suf, ssc='SSC' + suf, fl=fl, time='Time' if i % 2 == 0 else 'TIME')
 
 
-def bead_layout(inst, stream=0, container='int', n_events=120, n_pop=6, few=False, voltage_shift=0, linear_fl=False):
+def bead_layout(inst, stream=0, container='int', n_events=120, n_pop=6, few=False, voltage_shift=0, linear_fl=False, res=None):
     spec = dict(n_pop=n_pop, ratio=3.0, cv=0.03, n_events=n_events, laws=BEAD_LAWS[:len(inst['fl'])], blank=False, saturated=None,
-                container=container, stream=stream, order='shuffled', lead=250, trail=100, names=inst['fl'])
+                container=container, stream=stream, order='shuffled', lead=250, trail=100, names=inst['fl'], res=res)
     if few:
         spec.update(n_events=20, lead=100, trail=50)
     lay, truth = beadsgen.bead_sample(spec)
@@ -30,9 +30,9 @@ def bead_layout(inst, stream=0, container='int', n_events=120, n_pop=6, few=Fals
     return lay, truth
 
 
-def cell_layout(inst, stream=0, container='int', n=900, negatives=False, voltage_shift=0, linear_fl=False, level=200.0):
+def cell_layout(inst, stream=0, container='int', n=900, negatives=False, voltage_shift=0, linear_fl=False, level=200.0, res=None):
     return beadsgen.cell_sample(dict(n=n, container=container, stream=stream, names=inst['fl'], fsc=inst['fsc'], ssc=inst['ssc'],
-                                     time=inst['time'], negatives=negatives, voltage_shift=voltage_shift, linear_fl=linear_fl, level=level))
+                                     time=inst['time'], negatives=negatives, voltage_shift=voltage_shift, linear_fl=linear_fl, level=level, res=res))
 
 
 def write_fcs(path, lay):
